@@ -316,11 +316,18 @@ def check_epoch_ranges(ctx, model):
         cur = lambda os_: bool(os_) and all(o.kind == "call" and o.a.endswith("get_current_epoch") for o in os_)
         incl = [(b, t) for b, t in v.calls_to(r"^std::ops::RangeInclusive::new$") if cur(v.origins_of_operand(t["args"][1], at=v.at_term(b)))]
         half = []
+        from ..dataflow import expr_shape, norm_shape
         for b, i, s_ in v.iter_stmts():
             rv = s_["rv"]
             if rv["r"] == "agg" and rv.get("adt", "").endswith("ops::Range") and "end" in rv.get("fields", []):
-                if cur(v.origins_of_operand(rv["ops"][rv["fields"].index("end")], at=(b, i))):
+                end = rv["ops"][rv["fields"].index("end")]
+                if cur(v.origins_of_operand(end, at=(b, i))):
                     half.append(b)
+                else:
+                    # `start..current + 1` is the same inclusive range spelled half-open
+                    sh = norm_shape(expr_shape(v, end, (b, i), depth=2))
+                    if isinstance(sh, tuple) and sh[0] == "add" and "const(1)" in sh[1] and any(isinstance(x, tuple) and x[0] == "get_current_epoch" for x in sh[1]):
+                        incl.append((b, None))
         n += len(incl)
         ctx.ob("C13-W7", "%s|replay-includes-the-current-epoch" % p, len(incl) >= 1 and not half,
                "inclusive ranges ending at the current epoch: %d; half-open ranges ending at the current epoch: %d" % (len(incl), len(half)),
